@@ -45,6 +45,8 @@ def _go_build_tagged(ctx, moddir, pkg, outname, tags='verif', race=False):
     tag c19boot (first-boot crash points); on other trees those ops are not generated."""
     if outname == 'c19' and tags and os.path.exists(os.path.join(ctx.repo, 'src', 'core', 'verif_c19_boot.go')):
         tags = tags + ',c19boot'
+    if outname == 'c19' and tags and os.path.exists(os.path.join(ctx.repo, 'src', 'core', 'verif_c19_fork.go')):
+        tags = tags + ',c19fork'
     hookf = os.path.join(ctx.repo, 'src', 'middleware', 'db', 'verif_c19_hook.go')
     if outname == 'c19' and tags and os.path.exists(hookf) and 'VerifWriteFault' in open(hookf).read():
         tags = tags + ',c19fault'
